@@ -44,8 +44,8 @@ func guarded(kind, note string, f func() *h.Case) *h.Case {
 	select {
 	case c := <-ch:
 		return c
-	case <-time.After(20 * time.Second):
-		return &h.Case{Kind: kind, Impl: "HANG", Oracle: "entry point did not return within 20 s", NonTrivial: true, Note: note}
+	case <-time.After(60 * time.Second):
+		return &h.Case{Kind: kind, Impl: "HANG", Oracle: "entry point did not return within 60 s", NonTrivial: true, Note: note}
 	}
 }
 
